@@ -332,7 +332,34 @@ def composite_names():
     return out
 
 
+ORD3_PREFIXES = ["", "+", "++", "-", ">", ">>", "<", "<<", "*", "**"]
+
+
+def _ord_class(p):
+    return "n0" if p == "" else "n" if p[0] in "+-" else "g" if p[0] in "<>" else "s"
+
+
+def ord3_names():
+    """angle links listing three residues in every order of appearance, over every triple of order prefixes whose pairwise
+    relation vermouth's order table defines (numeric-numeric, reference-relative, relative-relative, reference-star, star-star)"""
+    import itertools
+    out = []
+    for tri in itertools.permutations(ORD3_PREFIXES, 3):
+        cls = {_ord_class(p) for p in tri}
+        if cls <= {"n0", "n"} or cls <= {"n0", "g"} or cls <= {"n0", "s"}:
+            out.append("ord3:" + ",".join(tri))
+    return out
+
+
+def ord3_link(prefixes):
+    i = ORD3_PREFIXES
+    par = "".join(str(i.index(p)) for p in prefixes)
+    return dict(resname=["A", "B", "C", "D"], inter={"angles": [I([p + "BB" for p in prefixes], ["2", "1" + par, "4" + par])]})
+
+
 def get_link(name):
+    if name.startswith("ord3:"):
+        return ord3_link(name[5:].split(","))
     if name.startswith("cmp:"):
         _, order, mods = name.split(":")
         return composite_link(order, mods.split("+"))
